@@ -87,6 +87,42 @@ def gen_case(r, cid, source, chain, lens, big=False):
     return line
 
 
+def corner_case(r, cid, source, chain, term, nt, cs, n, design):
+    """designed inputs: ascending values with filters that reject a prefix / a suffix / every other
+    element, so that 'the first element a worker pulls is rejected' and 'a chunk is filtered out
+    completely' happen on purpose"""
+    inp = list(range(n)) if source != "range" else list(range(0, n))
+    half = max(1, n // 2)
+    stages = []
+    for s in chain:
+        if s == "M":
+            stages.append("M:1:0")
+        elif s == "F":
+            stages.append({"prefix": "Fg:%d" % half, "suffix": "Fl:%d" % half, "alt": "F:2:1"}[design])
+        elif s == "X":
+            stages.append(r.choice(["X:2:1000", "Xm:3", "X:1:0"]))
+        else:
+            stages.append({"prefix": "O:2:1:1:0", "suffix": "O:3:0:1:0", "alt": "O:2:0:1:0"}[design])
+    kind, opaque, eager = gen_harness.analyse(chain)
+    has_ix = (not opaque) and kind in ("Empty", "Map", "Filter", "MapFilter")
+    ty = item_type(source, chain)
+    if term in ("findix", "firstix") and not has_ix:
+        term = "find" if term == "findix" else "first"
+    if term == "red":
+        term = "red:" + ("min" if ty != "val" else r.choice(["add", "min", "xor"]))
+    elif term == "ci":
+        term = "ci:%s:%s" % (r.choice("vsf"), "7/8/9")
+    elif term in ("find", "findix", "any"):
+        term = term + ":" + r.choice(["Fg:%d" % half, "Fa", "F:3:2"])
+    elif term == "all":
+        term = "all:" + r.choice(["Fl:%d" % half, "Fa"])
+    ops = ["N:%d" % nt, "%s:%d" % cs] + stages + ["%s:%d" % cs, "N:%d" % nt]
+    known = 1 if gen_harness.SOURCES[source][2] else 0
+    return "id=%d shape=%s known=%d in=%s ops=%s term=%s avail=%d sched=%s fuel=100000" % (
+        cid, gen_harness.shape_name(source, chain), known, ",".join(map(str, inp)) if inp else "-",
+        ";".join(ops), term, AVAIL, ",".join(str(r.randrange(0, 6)) for _ in range(12)))
+
+
 def gen_cases(tier, seed, shapes=None, per_shape=None):
     r = random.Random(seed * 7919 + 13)
     lens = [0, 1, 2, 3, 4, 5, 7, 8, 13, 21, 40]
@@ -103,6 +139,22 @@ def gen_cases(tier, seed, shapes=None, per_shape=None):
             ls = lens if k % 8 else [100, 257, 1000] if tier == "quick" else [100, 257, 1000, 4096]
             cases.append(gen_case(r, cid, src, ch, ls))
             cid += 1
+        if not ch:
+            continue
+        # corner grid
+        _, _, eager = gen_harness.analyse(ch)
+        terms = ["cv", "cx", "cnt", "red", "find", "first", "any", "all", "ci", "findix"]
+        designs = ["prefix", "suffix", "alt"]
+        k = 0
+        for term in terms:
+            for (nt, cs) in [(4, ("C", 1)), (3, ("C", 2)), (0, ("C", 0))]:
+                k += 1
+                if tier == "quick" and src != "vec" and k % 3:
+                    continue
+                n = 120 if (eager and nt == 4) else 24
+                for design in (designs if src == "vec" else [designs[k % 3]]):
+                    cases.append(corner_case(r, cid, src, ch, term, nt, cs, n, design))
+                    cid += 1
     return cases
 
 
